@@ -8,6 +8,6 @@ RULE = ("case = random or structured propagator-level model (1-5 variables with 
         "run through enumerate to exhaustion; the yielded sequence must equal the model's sequence exactly and, as a set without "
         "repetition, the brute-force solution set computed from the Coq `sat`; non-trivial = at least one solution or a failure")
 FAMILIES = [
-    Family("enum_random", "solve", ec.gen_models(ec.entry_enum, 3000, 80000), nontrivial=ec.nontrivial_solve, prop_judge=plevel.judge_solve),
+    Family("enum_random", "solve", ec.gen_models(ec.entry_enum, 3000, 600000), nontrivial=ec.nontrivial_solve, prop_judge=plevel.judge_solve),
     Family("enum_structured", "solve", lambda tier, rng: [c for c in ec.structured(tier, rng) if c.endswith("enum")], nontrivial=ec.nontrivial_solve, prop_judge=plevel.judge_solve),
 ]
